@@ -31,6 +31,7 @@ vars == <<alive, holder, target, cell, content, pbuf, pgrid, cond, grid, inv, bu
 Obj   == 1..MaxObj
 None  == -1000                       \* "no value" marker for versions
 NoBuf == [ver |-> None, g |-> ""]
+Unknown == 999                       \* a buffered displacement whose content the model does not track
 Invertible == Kind \in {"SVF", "SVFFD"}
 MaxCells == 12
 MaxVer   == 9
@@ -113,7 +114,7 @@ Disp(o) ==
             /\ bufU' = [bufU EXCEPT ![o] = UpdatedBuf(o)]
             /\ Log("disp", o, "", 0, {Now(o).ver})
        ELSE /\ UNCHANGED <<pbuf, pgrid, bufU>>
-            /\ Log("disp", o, "", 0, {bufU[o].ver, Now(o).ver})
+            /\ Log("disp", o, "", 0, IF bufU[o].ver = Unknown THEN {} ELSE {bufU[o].ver, Now(o).ver})
     /\ UNCHANGED <<alive, holder, target, cell, content, cond, grid, inv, nextver, nextcell>>
 
 \* t.data_(new tensor): replaces the parameters; buffers are dropped
@@ -138,7 +139,7 @@ InPlaceEdit(o) ==
 Reset(o) ==
     /\ Kind # "SEQ"                                  \* composites have no parameters of their own
     /\ Room /\ o \in alive /\ holder[o] \in {"param", "tensor", "callable"} /\ Sharers(o) = {}
-    /\ (holder[o] = "callable" => ~Linked(o))       \* resetting p in place would be visible through aliases
+    /\ (holder[o] = "callable" => alive = {o})      \* p is zeroed IN PLACE and shallow copies share that tensor
     /\ IF holder[o] = "callable"
        THEN pbuf' = [pbuf EXCEPT ![o] = PVal_(0)] /\ UNCHANGED content
        ELSE content' = [content EXCEPT ![cell[o]] = 0] /\ UNCHANGED pbuf
@@ -202,7 +203,11 @@ Inverse(o, lnk, ub) ==
        /\ grid' = [grid EXCEPT ![n] = grid[o]]
        /\ inv' = [inv EXCEPT ![n] = ~inv[o]]
        \* the copy starts with the forward buffers; update_buffers recomputes u from the buffered velocity
-       /\ bufU' = [bufU EXCEPT ![n] = IF ub /\ bufU[o] # NoBuf THEN [ver |-> -bufU[o].ver, g |-> bufU[o].g] ELSE bufU[o]]
+       \* (if the forward buffers are themselves out of date the result is whatever the aliased tensors hold: Unknown)
+       /\ bufU' = [bufU EXCEPT ![n] = IF ub /\ bufU[o] # NoBuf
+                                      THEN (IF bufU[o] = Now(o) THEN [ver |-> -bufU[o].ver, g |-> bufU[o].g]
+                                            ELSE [ver |-> Unknown, g |-> bufU[o].g])
+                                      ELSE bufU[o]]
        /\ Log("inverse", o, IF lnk THEN (IF ub THEN "link+ub" ELSE "link") ELSE (IF ub THEN "ub" ELSE "plain"), n, {})
     /\ UNCHANGED <<content, nextver, nextcell>>
 
